@@ -15,7 +15,7 @@ RULE = ("grids (algorithm, N) for cube4D and randomQ; quick N in {4..16,20,24,40
         "getters are called (in varying order) and every pair (i,j) is judged against all faces of the 2N-point double cover (exact all-pairs "
         "oracle). Non-trivial = grid with at least one pair adjacent only through the antipodal copy; distinct by (algorithm, N)")
 ASSUMPTIONS = ["faces with oracle area in [1e-13, 1e-8] are ambiguous (not judged); two-face contacts: border not judged (unspecified)",
-               "border tolerance 1e-5 absolute (observed agreement <= 1e-9), distances 1e-9, symmetry 1e-8 relative",
+               "border tolerance 1e-5 absolute (observed agreement <= 1e-9), distances 1e-9, symmetry 1e-8 (absolute and relative; mirror faces are computed separately and differ by ~3e-10)",
                "oracle validated per run against Monte-Carlo on sampled faces (oracle self-test counters in the evidence)"]
 EXHAUSTIVE = {"quick": False, "thorough": False}
 MIN_NONTRIVIAL = {"quick": 20, "thorough": 150}
